@@ -21,6 +21,7 @@ def load(p, default=None):
 claimed = load("tools/claimed.json", [])
 kf = load("known_findings.json", {"findings": []})["findings"]
 results = load("seeded/results.json", {})
+sweep = load("seeded/sweep.json", {})
 out = []
 out.append("### 9.1 Per property: what is proved, what ties it to the code\n")
 out.append("| ID | theorems checked | runs (harness binary ↔ Lean driver) | cases vs code (last quick run) | claimed |")
@@ -41,8 +42,8 @@ for f in kf:
     out.append(f"| {f['id']} | {f['property']} | `{f['class']}` | {f['status']} | {f.get('commit', '')} |")
 out.append("")
 out.append("### 9.3 Seeded changes (independent sub-agents) and which checks catch them\n")
-out.append("| seed | property | what it changes | needs to manifest | caught by |")
-out.append("|---|---|---|---|---|")
+out.append("| seed | property | what it changes | needs to manifest | caught by (harness run in a sandbox copy) | `./check` on /repo with the patch applied |")
+out.append("|---|---|---|---|---|---|")
 sd = os.path.join(ROOT, "seeded")
 if os.path.isdir(sd):
     for name in sorted(os.listdir(sd)):
@@ -50,7 +51,7 @@ if os.path.isdir(sd):
         if not m:
             continue
         r = results.get(name, {})
-        out.append(f"| {name} | {m.get('property')} | {m.get('summary', '')[:220].replace('|', '/')} | {m.get('needs_to_manifest', '')[:160].replace('|', '/')} | {r.get('caught_by', 'not yet run')} |")
+        out.append(f"| {name} | {m.get('property')} | {m.get('summary', '')[:220].replace('|', '/')} | {m.get('needs_to_manifest', '')[:160].replace('|', '/')} | {r.get('caught_by', 'not yet run')} | {('exit %s, %d VIOLATION line(s): %s' % (sweep[name]['exit'], sweep[name]['violations'], ', '.join(sweep[name]['classes'][:3]))) if name in sweep and sweep[name].get('applied') else ('patch does not apply to HEAD' if name in sweep else 'not yet run')} |")
 out.append("")
 block = BEGIN + "\n" + "\n".join(out) + "\n" + END
 p = os.path.join(ROOT, "DESIGN.md")
